@@ -43,6 +43,10 @@ impl Out {
             self.bad.push(format!("TOHDR({}.{})", self.tag, what));
         }
     }
+    /// audit follow-up: a ready-made layer (the derived accessor layers of fieldfmt2.rs)
+    pub fn add_layer(&mut self, l: String) {
+        self.layers.push(l);
+    }
     pub fn finish(self) -> String {
         let mut s = if self.layers.is_empty() { "ok -".to_string() } else { format!("ok {}", self.layers.join(" ")) };
         for b in self.bad {
@@ -348,7 +352,13 @@ pub fn transport(o: &mut Out, t: &TransportSlice) {
     }
 }
 
+#[allow(dead_code)]
 pub fn packet(p: &SlicedPacket) -> String {
+    packet_out(p).finish()
+}
+
+/// the raw field layers, not yet rendered (fieldfmt2.rs appends the derived layers)
+pub fn packet_out(p: &SlicedPacket) -> Out {
     let mut o = Out::new();
     if let Some(l) = &p.link {
         link(&mut o, l);
@@ -362,5 +372,5 @@ pub fn packet(p: &SlicedPacket) -> String {
     if let Some(t) = &p.transport {
         transport(&mut o, t);
     }
-    o.finish()
+    o
 }
